@@ -6,8 +6,10 @@ rows = []
 for cf in sorted(glob.glob(f"{root}/_runs/*.confirm.json")):
     c = json.load(open(cf))
     name = c["name"]
-    prop, var = name.split("-")
-    src = f"/tmp/seed_out/{prop}/{var}"
+    rnd2 = name.startswith("R2_")
+    prop, var = name[3:].split("-") if rnd2 else name.split("-")
+    base = "/tmp/seed2_out" if rnd2 else "/tmp/seed_out"
+    src = f"{base}/{prop}/{var}"
     ok = c.get("applies") and c.get("demo_without") == 0 and c.get("demo_with") == 1 and c.get("tests_passed", 0) >= 99 and c.get("tests_exit") == 0
     runf = f"{root}/_runs/{name}.json"
     run = json.load(open(runf)) if os.path.exists(runf) else {}
@@ -17,12 +19,12 @@ for cf in sorted(glob.glob(f"{root}/_runs/*.confirm.json")):
         os.makedirs(d, exist_ok=True)
         shutil.copy(f"{src}/patch.diff", f"{d}/patch.diff")
         shutil.copy(f"{src}/demo.py", f"{d}/demo.py")
-        notes = open(f"/tmp/seed_out/{prop}/{var[0]}/notes.md").read() if os.path.exists(f"/tmp/seed_out/{prop}/{var[0]}/notes.md") else ""
+        notes = open(f"{base}/{prop}/{var[0]}/notes.md").read() if os.path.exists(f"{base}/{prop}/{var[0]}/notes.md") else ""
         needs = ""
         m = re.search(r"(?is)(what is needed to manifest|needs?[^\n]*manifest[^\n]*|## needs)[^\n]*\n(.{0,900})", notes)
         if m:
             needs = " ".join(m.group(2).split())[:700]
-        json.dump({"breaks_property": prop, "variant": var, "written_by": "independent sub-agent given only the property text and a scratch worktree",
+        json.dump({"breaks_property": prop, "variant": var, "written_by": "independent sub-agent given only the property text and a scratch worktree" + (" (second round: told which two ideas had already been used, nothing else)" if rnd2 else ""),
                    "needs_to_manifest": needs or notes[:700],
                    "confirmed": {"on_head": c["head"], "applies": True, "pinned_tests_passed": c["tests_passed"], "tests_summary": c["tests_summary"],
                                  "demo_exit_without_change": c["demo_without"], "demo_exit_with_change": c["demo_with"],
